@@ -262,6 +262,14 @@ def _resolve(call, owner, modname, new_helpers):
             h = new_helpers[q]
             static = any(isinstance(d, ast.Name) and d.id == 'staticmethod' for d in h.decorator_list)
             return h, True, static
+        if base in ('self', 'cls') and owner != modname:
+            # a helper added to a base class of the same module and called through self from a subclass
+            cands = [hq for hq in new_helpers if hq.rsplit('.', 1)[-1] == f.attr and hq.startswith(modname + '.')
+                     and hq.count('.') == owner.count('.') + 1]
+            if len(cands) == 1:
+                h = new_helpers[cands[0]]
+                static = any(isinstance(d, ast.Name) and d.id == 'staticmethod' for d in h.decorator_list)
+                return h, True, static
         if owner.endswith('.' + base) and q in new_helpers:
             h = new_helpers[q]
             static = any(isinstance(d, ast.Name) and d.id == 'staticmethod' for d in h.decorator_list)
@@ -576,8 +584,20 @@ def _inline_temps_once(fn, q, ref, log):
                     continue
                 if single and any(sum(1 for u in uses if u.id == n) > 1 for n in tnames):
                     continue
-                if any(any(u in list(ast.walk(d)) for u in uses) for d in inner_defs):
-                    continue
+                in_closure = any(any(u is y for y in ast.walk(d)) for d in inner_defs for u in uses)
+                if in_closure:
+                    # a closure reads the temporary when it is *called*: only a plain lookup whose inputs are never rebound in
+                    # this function (parameters, module-level tables) may be moved into it
+                    if not all(_is_path_or_sub(v) for _, v in pairs) \
+                            or any(len(stores.get(nm, [])) > 0 for nm in names_used):
+                        continue
+                    for k in range(i + 1, len(blk)):
+                        blk[k] = _Subst({n: v for n, v in pairs}).visit(blk[k])
+                    blk.remove(st)
+                    ast.fix_missing_locations(fn)
+                    for n in tnames:
+                        log.append(('inline-temp', q, n))
+                    return True
                 last = max(u._ord for u in uses)
                 if _stores_between(fn, names_used, attrs_used, max(x._ord for x in ast.walk(st)), last):
                     continue
@@ -624,7 +644,8 @@ def _is_mutated(fn, name):
 
 _PURE = {'len', 'int', 'float', 'abs', 'min', 'max', 'tuple', 'list', 'isinstance', 'getattr', 'hasattr', 'range', 'zip', 'enumerate',
          'np.isnan', 'np.isfinite', 'np.arange', 'np.asarray', 'np.array', 'np.prod', 'np.sum', 'np.sqrt', 'np.cos', 'np.sin',
-         'np.where', 'np.nonzero', 'np.any', 'np.all', 'np.zeros', 'np.ones', 'np.dot', 'np.broadcast_to', 'np.ogrid'}
+         'np.where', 'np.nonzero', 'np.any', 'np.all', 'np.zeros', 'np.ones', 'np.dot', 'np.broadcast_to', 'np.ogrid',
+         'np.asanyarray', 'np.atleast_1d', 'np.atleast_2d', 'np.isscalar', 'np.shape', 'np.ndim'}
 
 
 def _pure_call(c):
@@ -680,6 +701,7 @@ def apply(tree, modname):
 def canonical_shapes(tree, modname):
     """Shape canonicalisations applied to every tree (reference and current alike); not logged as refactor reversals."""
     split_parallel_assignments(tree)
+    unroll_literal_setattr(tree)
     dedent_else_after_exit(tree)
     expand_literal_kwargs(tree)
     fold_augmented(tree)
@@ -740,6 +762,53 @@ def fold_augmented(tree):
                                 del blk[j]
                                 continue
                 j += 1
+
+
+def unroll_literal_setattr(tree):
+    """`for a in ('x', 'y'): setattr(obj, a, V)`  ->  `obj.x = V; obj.y = V`  (the names are literal, possibly through a local
+    bound to the literal tuple just for the loop; V does not depend on the loop variable)."""
+    if not any(isinstance(c, ast.Call) and isinstance(c.func, ast.Name) and c.func.id == 'setattr' for c in ast.walk(tree)):
+        return
+    for parent in list(ast.walk(tree)):
+        for fld in ('body', 'orelse', 'finalbody'):
+            blk = getattr(parent, fld, None)
+            if not isinstance(blk, list) or not blk or not isinstance(blk[0], ast.stmt):
+                continue
+            i = 0
+            while i < len(blk):
+                st = blk[i]
+                i += 1
+                if not (isinstance(st, ast.For) and isinstance(st.target, ast.Name) and not st.orelse and len(st.body) == 1
+                        and isinstance(st.body[0], ast.Expr) and isinstance(st.body[0].value, ast.Call)):
+                    continue
+                c = st.body[0].value
+                if not (isinstance(c.func, ast.Name) and c.func.id == 'setattr' and len(c.args) == 3 and not c.keywords
+                        and isinstance(c.args[1], ast.Name) and c.args[1].id == st.target.id
+                        and not any(isinstance(x, ast.Name) and x.id == st.target.id for x in ast.walk(c.args[2]))
+                        and not any(isinstance(x, ast.Name) and x.id == st.target.id for x in ast.walk(c.args[0]))
+                        and not any(isinstance(x, ast.Call) for x in ast.walk(c.args[2]))):
+                    continue
+                lit = st.iter
+                temp = None
+                if isinstance(lit, ast.Name):
+                    k = blk.index(st)
+                    prev = blk[k - 1] if k > 0 else None
+                    if isinstance(prev, ast.Assign) and len(prev.targets) == 1 and isinstance(prev.targets[0], ast.Name) \
+                            and prev.targets[0].id == lit.id:
+                        uses = [x for x in ast.walk(tree) if isinstance(x, ast.Name) and x.id == lit.id]
+                        if len(uses) == 2:
+                            temp, lit = prev, prev.value
+                if not (isinstance(lit, (ast.Tuple, ast.List)) and lit.elts
+                        and all(isinstance(e, ast.Constant) and isinstance(e.value, str) and e.value.isidentifier() for e in lit.elts)):
+                    continue
+                new = [ast.copy_location(ast.Assign(targets=[ast.Attribute(value=_clone(c.args[0]), attr=e.value, ctx=ast.Store())],
+                                                    value=_clone(c.args[2])), st) for e in lit.elts]
+                k = blk.index(st)
+                blk[k:k + 1] = new
+                if temp is not None:
+                    blk.remove(temp)
+                ast.fix_missing_locations(tree)
+                i = 0
 
 
 def dedent_else_after_exit(tree):
@@ -934,6 +1003,40 @@ def undo_destructuring(funcs, table, log):
                                 if g is not node:
                                     g.iter = sub.visit(g.iter)
                         log.append(('undo-destructuring', q, ','.join(names)))
+        # `for yslc, xslc in it` where the reference iterates with ONE name (`for slc in it`): back to that name, elements -> slc[j]
+        have = {x.id for x in ast.walk(fn) if isinstance(x, ast.Name) and isinstance(x.ctx, ast.Store)}
+        missing_iter = [v for v, fp in ref.items() if isinstance(fp, str) and fp.startswith('iter') and 'unpack' not in fp and v not in have]
+        cands = [node for node in ast.walk(fn) if isinstance(node, (ast.For, ast.comprehension))
+                 and isinstance(node.target, (ast.Tuple, ast.List)) and node.target.elts
+                 and all(isinstance(x, ast.Name) and (x.id not in ref or x.id == '_') for x in node.target.elts)]
+        if len(missing_iter) == 1 and len(cands) == 1:
+            node = cands[0]
+            names = [x.id for x in node.target.elts]
+            real = [n for n in names if n != '_']
+            stores = [x for x in ast.walk(fn) if isinstance(x, ast.Name) and isinstance(x.ctx, ast.Store) and x.id in real]
+            if len(stores) == len(real) and len(set(real)) == len(real):
+                v = missing_iter[0]
+                mapping = {n: ast.Subscript(value=ast.Name(id=v, ctx=ast.Load()), slice=ast.Constant(value=j), ctx=ast.Load())
+                           for j, n in enumerate(names) if n != '_'}
+                sub = _Subst(mapping)
+                done_ = True
+                if isinstance(node, ast.For):
+                    node.body = [sub.visit(s_) for s_ in node.body]
+                else:
+                    comp = _parent_comp(fn, node)
+                    if comp is None:
+                        done_ = False
+                    else:
+                        for fld in ('elt', 'key', 'value'):
+                            if hasattr(comp, fld):
+                                setattr(comp, fld, sub.visit(getattr(comp, fld)))
+                        for g in comp.generators:
+                            g.ifs = [sub.visit(x) for x in g.ifs]
+                            if g is not node:
+                                g.iter = sub.visit(g.iter)
+                if done_:
+                    node.target = ast.Name(id=v, ctx=ast.Store())
+                    log.append(('undo-destructuring', q, ','.join(names) + '->' + v))
         ast.fix_missing_locations(fn)
 
 
